@@ -1,6 +1,661 @@
 import PyCliffordModel.Proofs.Transform
 import PyCliffordModel.Proofs.Z2Inv
-/-! # Proofs/Compose — helper lemmas for C04 (compose / inverse of Clifford maps) -/
-namespace PC
+/-! # Proofs/Compose — helper lemmas for C04 (compose / inverse of Clifford maps)
 
+Part 1: `transform` commutes with `pauli_combine`, hence `compose` acts as "first map, then second map";
+validity of compositions; faithfulness (a valid map is determined by its action on the generators).
+Part 2: the flat bit matrix of a valid map is symplectic, hence invertible over GF(2) (`z2inv` does not raise);
+the rows built by `CliffordMap.inverse` are sent to the generators, which gives validity and both composition
+orders. Everything lives in `PC.Cp`.
+-/
+namespace PC
+namespace Cp
+open Tr Z2
+
+/-! ## row-wise `PEq` of lists -/
+
+theorem forall₂_of_rowAt : ∀ (A B : List Pauli), A.length = B.length →
+    (∀ i, i < A.length → PEq (rowAt A i) (rowAt B i)) → List.Forall₂ PEq A B
+  | [], [], _, _ => List.Forall₂.nil
+  | [], _ :: _, h, _ => by simp at h
+  | _ :: _, [], h, _ => by simp at h
+  | a :: A, b :: B, hl, h => by
+    refine List.Forall₂.cons ?_ (forall₂_of_rowAt A B (by simpa using hl) fun i hi => ?_)
+    · simpa [rowAt_cons_zero] using h 0 (by simp)
+    · have := h (i + 1) (by simp; omega)
+      rwa [rowAt_cons_succ, rowAt_cons_succ] at this
+
+theorem rowAt_of_forall₂ {A B : List Pauli} (h : List.Forall₂ PEq A B) (i : Nat) :
+    PEq (rowAt A i) (rowAt B i) := by
+  induction h generalizing i with
+  | nil => exact PEq.refl _
+  | cons hab _ ih =>
+    cases i with
+    | zero => simpa [rowAt_cons_zero] using hab
+    | succ i => rw [rowAt_cons_succ, rowAt_cons_succ]; exact ih i
+
+theorem forall₂_map (A : List Pauli) (f g : Pauli → Pauli) (h : ∀ R ∈ A, PEq (f R) (g R)) :
+    List.Forall₂ PEq (A.map f) (A.map g) := by
+  induction A with
+  | nil => exact List.Forall₂.nil
+  | cons a A ih =>
+    exact List.Forall₂.cons (h a (by simp)) (ih fun R hR => h R (by simp [hR]))
+
+theorem rowAt_map' {α : Type} (f : α → Pauli) (L : List α) (d : α) (i : Nat) (h : i < L.length) :
+    rowAt (L.map f) i = f (L.getD i d) := by
+  simp [rowAt, List.getD_eq_getElem?_getD, List.getElem?_map, List.getElem?_eq_getElem h]
+
+/-! ## `transform` commutes with `pauli_combine` -/
+
+/-- a valid map applied to a combination of rows = the combination of the transformed rows -/
+theorem combineAux_transform (B : List Pauli) (n : Nat) (hB : ValidMap B n) (c : List Bool) :
+    ∀ (rows : List Pauli) (acc : Pauli), (∀ R ∈ rows, R.g.length = n) → acc.g.length = n →
+    PEq (transform B (combineAux c rows acc)) (combineAux c (rows.map (transform B)) (transform B acc)) := by
+  induction c with
+  | nil => intro rows acc _ _; simp only [combineAux_nil_left]; exact PEq.refl _
+  | cons c0 cs ih =>
+    intro rows acc hl ha
+    cases rows with
+    | nil => simp only [List.map_nil, combineAux_nil_right]; exact PEq.refl _
+    | cons r rs =>
+      have hr := hl r (by simp)
+      have hrs : ∀ R ∈ rs, R.g.length = n := fun R hR => hl R (by simp [hR])
+      rw [List.map_cons, combineAux_cons, combineAux_cons]
+      cases c0 with
+      | false => exact ih rs acc hrs ha
+      | true =>
+        simp only [if_true]
+        refine (ih rs (mul acc r) hrs ?_).trans (combineAux_congr _ _ (transform_mul B n hB acc r ha hr))
+        rw [length_mul _ _ (ha.trans hr.symm)]; exact ha
+
+theorem length_compose (A B : List Pauli) : (compose A B).length = A.length := by
+  unfold compose transformRows; rw [List.length_map]
+
+theorem rowAt_compose (A B : List Pauli) (i : Nat) (h : i < A.length) :
+    rowAt (compose A B) i = transform B (rowAt A i) := by
+  unfold compose transformRows; exact rowAt_map _ _ i h
+
+/-- composition acts as the first map followed by the second -/
+theorem compose_acts (A B : List Pauli) (n : Nat) (hA : ValidMap A n) (hB : ValidMap B n) (P : Pauli)
+    (_hP : P.g.length = n) : PEq (transform (compose A B) P) (transform B (transform A P)) := by
+  have hlA : ∀ R ∈ A, R.g.length = n := fun R hR => (hA.2.1 R hR).1
+  have hlen : (compose A B).length = 2 * n := by rw [length_compose]; exact hA.1
+  have h1 := combineAux_transform B n hB (flat P.g) A ⟨idStr n, 0⟩ hlA (length_idStr n)
+  rw [transform_one B n hB.1] at h1
+  have e1 : transform (compose A B) P =
+      ⟨(combineAux (flat P.g) (A.map (transform B)) ⟨idStr n, 0⟩).g,
+        (P.p + p0 P.g + (combineAux (flat P.g) (A.map (transform B)) ⟨idStr n, 0⟩).p) % 4⟩ := by
+    unfold transform combine; rw [mapN_of_length _ n hlen]; rfl
+  have e2 : transform A P =
+      ⟨(combineAux (flat P.g) A ⟨idStr n, 0⟩).g, (P.p + p0 P.g + (combineAux (flat P.g) A ⟨idStr n, 0⟩).p) % 4⟩ := by
+    unfold transform combine; rw [mapN_of_length _ n hA.1]
+  have h2 := transform_of_g_eq B (transform A P) (combineAux (flat P.g) A ⟨idStr n, 0⟩) (by rw [e2])
+  rw [e1]
+  refine ⟨?_, ?_⟩
+  · show _ = (transform B (transform A P)).g
+    rw [h2.1, h1.1]
+  · have a := h2.2; have b := h1.2
+    have c : (transform A P).p = (P.p + p0 P.g + (combineAux (flat P.g) A ⟨idStr n, 0⟩).p) % 4 := by rw [e2]
+    simp only at a b ⊢
+    omega
+
+theorem compose_valid (A B : List Pauli) (n : Nat) (hA : ValidMap A n) (hB : ValidMap B n) :
+    ValidMap (compose A B) n := by
+  have hlB : ∀ R ∈ B, R.g.length = n := fun R hR => (hB.2.1 R hR).1
+  refine ⟨by rw [length_compose]; exact hA.1, ?_, ?_⟩
+  · intro R hR
+    unfold compose transformRows at hR
+    obtain ⟨R0, hR0, rfl⟩ := List.mem_map.1 hR
+    obtain ⟨h1, h2⟩ := hA.2.1 R0 hR0
+    exact ⟨length_transform B n hB.1 hlB R0, transform_hermitian B n hB R0 h1 h2⟩
+  · intro i j hi hj
+    have hi' : i < A.length := by rw [hA.1]; exact hi
+    have hj' : j < A.length := by rw [hA.1]; exact hj
+    rw [rowAt_compose _ _ i hi', rowAt_compose _ _ j hj',
+      transform_acq B n hB _ _ (hA.2.1 _ (rowAt_mem A i hi')).1 (hA.2.1 _ (rowAt_mem A j hj')).1]
+    exact hA.2.2 i j hi hj
+
+/-! ## the identity map -/
+
+theorem transform_idMap (n : Nat) (P : Pauli) (hP : P.g.length = n) : PEq (transform (idMap n) P) P := by
+  have h := combineAux_idMap n P.g 0 hP
+  unfold transform combine
+  rw [mapN_of_length _ n (length_idMap n)]
+  refine ⟨h.1, ?_⟩
+  have h2 := h.2
+  simp only [p0] at h2 ⊢
+  omega
+
+theorem validMap_idMap (n : Nat) : ValidMap (idMap n) n :=
+  ⟨length_idMap n, fun R hR => ⟨(idMap_rows n R hR).1, by rw [(idMap_rows n R hR).2]; rfl⟩,
+    fun i j hi hj => Sympl_idMap n i j (by rw [length_idMap]; exact hi) (by rw [length_idMap]; exact hj)⟩
+
+/-! ## faithfulness -/
+
+theorem faithful (A B : List Pauli) (n : Nat) (hA : ValidMap A n) (hB : ValidMap B n)
+    (h : ∀ P : Pauli, P.g.length = n → PEq (transform A P) (transform B P)) : List.Forall₂ PEq A B := by
+  apply forall₂_of_rowAt A B (hA.1.trans hB.1.symm)
+  intro i hiA
+  have hiB : i < B.length := by rw [hB.1, ← hA.1]; exact hiA
+  have hi : i < 2 * n := by rw [← hA.1]; exact hiA
+  have lA := (hA.2.1 _ (rowAt_mem A i hiA)).1
+  have lB := (hB.2.1 _ (rowAt_mem B i hiB)).1
+  rcases Nat.mod_two_eq_zero_or_one i with h0 | h1
+  · obtain ⟨k, rfl⟩ : ∃ k, i = 2 * k := ⟨i / 2, by omega⟩
+    have hk : k < n := by omega
+    exact (transform_unitX A n k hA.1 hk lA).symm.trans
+      ((h _ (length_unitX n k)).trans (transform_unitX B n k hB.1 hk lB))
+  · obtain ⟨k, rfl⟩ : ∃ k, i = 2 * k + 1 := ⟨i / 2, by omega⟩
+    have hk : k < n := by omega
+    exact (transform_unitZ A n k hA.1 hk lA).symm.trans
+      ((h _ (length_unitZ n k)).trans (transform_unitZ B n k hB.1 hk lB))
+
+theorem id_compose (A : List Pauli) (n : Nat) (hA : ValidMap A n) : List.Forall₂ PEq (compose (idMap n) A) A :=
+  faithful _ A n (compose_valid _ _ n (validMap_idMap n) hA) hA fun P hP =>
+    (compose_acts _ A n (validMap_idMap n) hA P hP).trans (transform_congr A (transform_idMap n P hP))
+
+theorem compose_id (A : List Pauli) (n : Nat) (hA : ValidMap A n) : List.Forall₂ PEq (compose A (idMap n)) A :=
+  faithful _ A n (compose_valid _ _ n hA (validMap_idMap n)) hA fun P hP =>
+    (compose_acts A _ n hA (validMap_idMap n) P hP).trans
+      (transform_idMap n _ (length_transform A n hA.1 (fun R hR => (hA.2.1 R hR).1) P))
+
+theorem compose_assoc (A B C : List Pauli) (n : Nat) (hA : ValidMap A n) (hB : ValidMap B n) (hC : ValidMap C n) :
+    List.Forall₂ PEq (compose (compose A B) C) (compose A (compose B C)) := by
+  have : compose (compose A B) C = A.map (fun R => transform C (transform B R)) := by
+    unfold compose transformRows; rw [List.map_map]; rfl
+  rw [this]
+  exact forall₂_map A _ _ fun R hR => (compose_acts B C n hB hC R (hA.2.1 R hR).1).symm
+
+/-! ## `transform` respects row-wise `PEq` of the map -/
+
+theorem mul_congr_right (a : Pauli) {r r' : Pauli} (h : PEq r r') : PEq (mul a r) (mul a r') := by
+  obtain ⟨hg, hp⟩ := h
+  refine ⟨by simp only [mul_g, hg], ?_⟩
+  simp only [mul_p, hg]; omega
+
+theorem combineAux_congr_rows {rows rows' : List Pauli} (h : List.Forall₂ PEq rows rows') :
+    ∀ (c : List Bool) (a a' : Pauli), PEq a a' → PEq (combineAux c rows a) (combineAux c rows' a') := by
+  induction h with
+  | nil => intro c a a' ha; simpa only [combineAux_nil_right] using ha
+  | cons hr _ ih =>
+    intro c a a' ha
+    cases c with
+    | nil => simpa only [combineAux_nil_left] using ha
+    | cons c0 cs =>
+      rw [combineAux_cons, combineAux_cons]
+      cases c0 with
+      | false => exact ih cs a a' ha
+      | true => exact ih cs _ _ ((mul_congr_left ha _).trans (mul_congr_right _ hr))
+
+theorem transform_congr_map {M M' : List Pauli} (h : List.Forall₂ PEq M M') (P : Pauli) :
+    PEq (transform M P) (transform M' P) := by
+  have hl : mapN M = mapN M' := by unfold mapN; rw [h.length_eq]
+  have hc := combineAux_congr_rows h (flat P.g) ⟨idStr (mapN M), 0⟩ ⟨idStr (mapN M), 0⟩ (PEq.refl _)
+  unfold transform combine
+  rw [← hl]
+  refine ⟨hc.1, ?_⟩
+  have := hc.2
+  simp only at this ⊢
+  omega
+
+/-- if `compose A B` is the identity map then `transform B ∘ transform A` is the identity -/
+theorem acts_id_of_rows (A B : List Pauli) (n : Nat) (hA : ValidMap A n) (hB : ValidMap B n)
+    (h : List.Forall₂ PEq (compose A B) (idMap n)) (P : Pauli) (hP : P.g.length = n) :
+    PEq (transform B (transform A P)) P :=
+  (compose_acts A B n hA hB P hP).symm.trans ((transform_congr_map h P).trans (transform_idMap n P hP))
+
+/-! ## Part 2 — flat bit matrices -/
+
+theorem length_flat (g : PStr) : (flat g).length = 2 * g.length := by
+  induction g with
+  | nil => rfl
+  | cons q qs ih => rw [flat_cons]; simp [ih]; omega
+
+theorem flat_unflat : ∀ (c : List Bool) (k : Nat), c.length = 2 * k → flat (unflat c) = c
+  | [], _, _ => rfl
+  | [_], k, h => by simp at h; omega
+  | x :: z :: rest, k, h => by
+    show x :: z :: flat (unflat rest) = _
+    rw [flat_unflat rest (k - 1) (by simp at h; omega)]
+
+theorem length_unflat : ∀ (c : List Bool) (k : Nat), c.length = 2 * k → (unflat c).length = k
+  | [], k, h => by simp at h; simp [unflat]; omega
+  | [_], k, h => by simp at h; omega
+  | x :: z :: rest, k, h => by
+    show (unflat rest).length + 1 = k
+    rw [length_unflat rest (k - 1) (by simp at h; omega)]; simp at h; omega
+
+theorem getD_flat_zero (q : Q) (qs : PStr) : (flat (q :: qs)).getD 0 false = q.1 := rfl
+theorem getD_flat_one (q : Q) (qs : PStr) : (flat (q :: qs)).getD 1 false = q.2 := rfl
+theorem getD_flat_add_two (q : Q) (qs : PStr) (j : Nat) :
+    (flat (q :: qs)).getD (j + 2) false = (flat qs).getD j false := by
+  rw [flat_cons]; simp
+
+theorem getD_flat_nil (j : Nat) : (flat []).getD j false = false := by simp [flat]
+
+theorem eq_of_flat_getD : ∀ (a b : PStr), a.length = b.length →
+    (∀ j, j < 2 * a.length → (flat a).getD j false = (flat b).getD j false) → a = b
+  | [], [], _, _ => rfl
+  | [], _ :: _, hl, _ => by simp at hl
+  | _ :: _, [], hl, _ => by simp at hl
+  | q :: qs, r :: rs, hl, h => by
+    have h0 := h 0 (by simp)
+    have h1 := h 1 (by simp; omega)
+    rw [getD_flat_zero, getD_flat_zero] at h0
+    rw [getD_flat_one, getD_flat_one] at h1
+    have ht := eq_of_flat_getD qs rs (by simpa using hl) (fun j hj => by
+      have := h (j + 2) (by simp; omega)
+      rwa [getD_flat_add_two, getD_flat_add_two] at this)
+    subst ht
+    have : q = r := Prod.ext h0 h1
+    rw [this]
+
+theorem getD_flat_idStr (n j : Nat) : (flat (idStr n)).getD j false = false := by
+  induction n generalizing j with
+  | zero => exact getD_flat_nil j
+  | succ n ih =>
+    rw [idStr_succ]
+    match j with
+    | 0 => rfl
+    | 1 => rfl
+    | j + 2 => rw [getD_flat_add_two]; exact ih j
+
+theorem getD_flat_xorS : ∀ (a b : PStr) (j : Nat), a.length = b.length →
+    (flat (xorS a b)).getD j false = ((flat a).getD j false != (flat b).getD j false)
+  | [], [], j, _ => by simp [xorS, flat]
+  | [], _ :: _, _, hl => by simp at hl
+  | _ :: _, [], _, hl => by simp at hl
+  | q :: qs, r :: rs, j, hl => by
+    rw [xorS_cons]
+    match j with
+    | 0 => rfl
+    | 1 => rfl
+    | j + 2 =>
+      rw [getD_flat_add_two, getD_flat_add_two, getD_flat_add_two]
+      exact getD_flat_xorS qs rs j (by simpa using hl)
+
+/-- the string of a combination is the GF(2) combination of the strings -/
+theorem flat_combineAux (n j : Nat) : ∀ (c : List Bool) (rows : List Pauli) (acc : Pauli),
+    c.length = rows.length → (∀ R ∈ rows, R.g.length = n) → acc.g.length = n →
+    (flat (combineAux c rows acc).g).getD j false =
+      ((flat acc.g).getD j false !=
+        xsum (fun k => c.getD k false && (flat (rowAt rows k).g).getD j false) rows.length) := by
+  intro c
+  induction c with
+  | nil =>
+    intro rows acc hc _ _
+    have : rows = [] := by cases rows with
+      | nil => rfl
+      | cons _ _ => simp at hc
+    subst this
+    simp [combineAux_nil_left, xsum]
+  | cons c0 cs ih =>
+    intro rows acc hc hl ha
+    cases rows with
+    | nil => simp at hc
+    | cons r rs =>
+      have hr := hl r (by simp)
+      have hrs : ∀ R ∈ rs, R.g.length = n := fun R hR => hl R (by simp [hR])
+      have hcs : cs.length = rs.length := by simpa using hc
+      rw [combineAux_cons, List.length_cons, xsum_shift]
+      simp only [List.getD_cons_zero, List.getD_cons_succ, rowAt_cons_zero, rowAt_cons_succ]
+      cases c0 with
+      | false =>
+        simp only [Bool.false_eq_true, if_false]
+        rw [ih rs acc hcs hrs ha]
+        simp
+      | true =>
+        have hm : (mul acc r).g.length = n := by rw [length_mul _ _ (ha.trans hr.symm)]; exact ha
+        simp only [if_true]
+        rw [ih rs (mul acc r) hcs hrs hm, mul_g, getD_flat_xorS _ _ _ (ha.trans hr.symm)]
+        simp only [Bool.true_and]
+        generalize (flat acc.g).getD j false = x
+        generalize (flat r.g).getD j false = y
+        generalize xsum _ _ = z
+        cases x <;> cases y <;> cases z <;> rfl
+
+/-- the flat bit matrix of a map (the code's `gs`) -/
+def smat (M : List Pauli) : BMat := M.map fun R => flat R.g
+
+theorem get_smat (M : List Pauli) (k j : Nat) : (smat M).get k j = (flat (rowAt M k).g).getD j false := by
+  simp only [BMat.get, smat, rowAt, List.getD_eq_getElem?_getD, List.getElem?_map]
+  cases M[k]? <;> simp [flat]
+
+theorem isSquare_smat (M : List Pauli) (n : Nat) (hM : M.length = 2 * n) (hl : ∀ R ∈ M, R.g.length = n) :
+    IsSquare (smat M) (2 * n) := by
+  refine ⟨by simp [smat, hM], fun row hrow => ?_⟩
+  obtain ⟨R, hR, rfl⟩ := List.mem_map.1 hrow
+  rw [length_flat, hl R hR]
+
+theorem flat_combine (n : Nat) (M : List Pauli) (c : List Bool) (j : Nat) (hM : M.length = 2 * n)
+    (hl : ∀ R ∈ M, R.g.length = n) (hc : c.length = 2 * n) :
+    (flat (combine n c M).g).getD j false = xsum (fun k => c.getD k false && (smat M).get k j) (2 * n) := by
+  unfold combine
+  rw [flat_combineAux n j c M ⟨idStr n, 0⟩ (hc.trans hM.symm) hl (length_idStr n), getD_flat_idStr, hM]
+  simp only [Bool.false_bne, get_smat]
+
+theorem flat_transform (n : Nat) (M : List Pauli) (P : Pauli) (j : Nat) (hM : M.length = 2 * n)
+    (hl : ∀ R ∈ M, R.g.length = n) (hP : P.g.length = n) :
+    (flat (transform M P).g).getD j false =
+      xsum (fun k => (flat P.g).getD k false && (smat M).get k j) (2 * n) := by
+  have : (transform M P).g = (combine n (flat P.g) M).g := by
+    unfold transform; rw [mapN_of_length M n hM]
+  rw [this, flat_combine n M _ j hM hl (by rw [length_flat, hP])]
+
+/-! ## the commutation form as a GF(2) sum -/
+
+/-- the partner index: `2k ↔ 2k+1` -/
+def flip1 (k : Nat) : Nat := if k % 2 = 0 then k + 1 else k - 1
+
+theorem flip1_add_two (k : Nat) : flip1 (k + 2) = flip1 k + 2 := by
+  unfold flip1; split <;> split <;> omega
+
+theorem flip1_lt (k n : Nat) (h : k < 2 * n) : flip1 k < 2 * n := by
+  unfold flip1; split <;> omega
+
+theorem acqSum_eq_xsum : ∀ (a b : PStr) (n : Nat), a.length = n → b.length = n →
+    acqSum a b % 2 = b2i (xsum (fun k => (flat a).getD k false && (flat b).getD (flip1 k) false) (2 * n))
+  | [], [], n, h, _ => by
+    have : n = 0 := by simpa using h.symm
+    subst this; rfl
+  | [], _ :: _, n, h1, h2 => by simp at h1 h2; omega
+  | _ :: _, [], n, h1, h2 => by simp at h1 h2; omega
+  | q :: qs, r :: rs, n, h1, h2 => by
+    obtain ⟨m, rfl⟩ : ∃ m, n = m + 1 := ⟨n - 1, by simp at h1; omega⟩
+    have ih := acqSum_eq_xsum qs rs m (by simpa using h1) (by simpa using h2)
+    have e : 2 * (m + 1) = 2 * m + 1 + 1 := by omega
+    rw [e, xsum_shift, xsum_shift]
+    have et : xsum (fun k => (flat (q :: qs)).getD (k + 1 + 1) false &&
+          (flat (r :: rs)).getD (flip1 (k + 1 + 1)) false) (2 * m) =
+        xsum (fun k => (flat qs).getD k false && (flat rs).getD (flip1 k) false) (2 * m) := by
+      apply xsum_congr; intro k _
+      rw [show k + 1 + 1 = k + 2 from rfl, flip1_add_two, getD_flat_add_two, getD_flat_add_two]
+    rw [et]
+    have f0 : flip1 0 = 1 := rfl
+    have f1 : flip1 (0 + 1) = 0 := rfl
+    rw [f0, f1, getD_flat_zero, getD_flat_one, show (0 + 1) = 1 from rfl, getD_flat_zero, getD_flat_one,
+      acqSum_cons]
+    generalize xsum _ _ = X at ih ⊢
+    obtain ⟨x, z⟩ := q; obtain ⟨x', z'⟩ := r
+    cases x <;> cases z <;> cases x' <;> cases z' <;> cases X <;> simp [acqQ, b2i] at ih ⊢ <;> omega
+
+theorem acq_eq_xsum (a b : PStr) (n : Nat) (ha : a.length = n) (hb : b.length = n) :
+    acq a b = b2i (xsum (fun k => (flat a).getD k false && (flat b).getD (flip1 k) false) (2 * n)) :=
+  acqSum_eq_xsum a b n ha hb
+
+/-- **symplecticity**: `S · (Ω Sᵀ Ω) = 1` for the flat matrix `S` of a valid map -/
+theorem smat_rinv (A : List Pauli) (n : Nat) (hA : ValidMap A n) : ∀ r, r < 2 * n → ∀ c, c < 2 * n →
+    mmul (2 * n) (smat A).get (fun k c => (smat A).get (flip1 c) (flip1 k)) r c = ident r c := by
+  intro r hr c hc
+  have hfc := flip1_lt c n hc
+  have lr := (hA.2.1 _ (rowAt_mem A r (by rw [hA.1]; exact hr))).1
+  have lc := (hA.2.1 _ (rowAt_mem A (flip1 c) (by rw [hA.1]; exact hfc))).1
+  have h1 := acq_eq_xsum _ _ n lr lc
+  rw [hA.2.2 r (flip1 c) hr hfc] at h1
+  simp only [mmul, get_smat, ident]
+  generalize xsum _ _ = X at h1 ⊢
+  have hfl : (r / 2 = flip1 c / 2 ∧ r ≠ flip1 c) ↔ r = c := by
+    unfold flip1; split <;> omega
+  by_cases e : r = c
+  · have : (r == c) = true := by simpa using e
+    rw [this]
+    rw [if_pos (hfl.2 e)] at h1
+    cases X <;> simp [b2i] at h1 ⊢
+  · have : (r == c) = false := by simpa using e
+    rw [this]
+    rw [if_neg (fun h => e (hfl.1 h))] at h1
+    cases X <;> simp [b2i] at h1 ⊢
+
+/-! ## right-invertible ⇒ `z2inv` succeeds (via the transpose) -/
+
+def ofFn (m : Nat) (f : Mat) : BMat := (List.range m).map fun r => (List.range m).map fun c => f r c
+
+theorem shape_ofFn (m : Nat) (f : Mat) : Shape (ofFn m f) m m := by
+  refine ⟨by simp [ofFn], fun j hj => ?_⟩
+  simp [ofFn, List.getD_eq_getElem?_getD, List.getElem?_map, List.getElem?_range hj]
+
+theorem get_ofFn (m : Nat) (f : Mat) (r c : Nat) (hr : r < m) (hc : c < m) : (ofFn m f).get r c = f r c := by
+  simp only [BMat.get, ofFn, List.getD_eq_getElem?_getD, List.getElem?_map,
+    List.getElem?_range hr, List.getElem?_range hc, Option.map_some, Option.getD_some]
+
+theorem ident_comm (r c : Nat) : ident r c = ident c r := by
+  simp only [ident]; exact BEq.comm
+
+theorem z2inv_some_of_rinv (A : BMat) (m : Nat) (hA : IsSquare A m) (R : Mat)
+    (hR : ∀ r, r < m → ∀ c, c < m → mmul m A.get R r c = ident r c) : ∃ G, z2inv A = some G := by
+  have sAt := shape_ofFn m (fun r c => A.get c r)
+  have sRt := shape_ofFn m (fun r c => R c r)
+  have sqAt := isSquare_of_shape _ m sAt
+  have h1 : bmul (ofFn m (fun r c => R c r)) (ofFn m (fun r c => A.get c r)) m = bident m := by
+    refine (bmul_eq_bident_iff _ _ m sRt).mpr fun r hr c hc => ?_
+    rw [ident_comm, ← hR c hc r hr]
+    simp only [mmul]
+    apply xsum_congr; intro k hk
+    rw [get_ofFn m _ r k hr hk, get_ofFn m _ k c hk hc, Bool.and_comm]
+  cases hz : z2inv (ofFn m (fun r c => A.get c r)) with
+  | none => exact absurd ⟨_, isSquare_of_shape _ m sRt, h1⟩ (z2inv_complete _ m sqAt hz)
+  | some Bt =>
+    have h2 := (bmul_eq_bident_iff _ Bt m sAt).mp (z2inv_right _ Bt m sqAt hz)
+    have sL := shape_ofFn m (fun r c => Bt.get c r)
+    have h3 : bmul (ofFn m (fun r c => Bt.get c r)) A m = bident m := by
+      refine (bmul_eq_bident_iff _ _ m sL).mpr fun r hr c hc => ?_
+      rw [ident_comm, ← h2 c hc r hr]
+      simp only [mmul]
+      apply xsum_congr; intro k hk
+      rw [get_ofFn m _ r k hr hk, get_ofFn m _ c k hc hk, Bool.and_comm]
+    cases hz2 : z2inv A with
+    | none => exact absurd ⟨_, isSquare_of_shape _ m sL, h3⟩ (z2inv_complete A m hA hz2)
+    | some G => exact ⟨G, rfl⟩
+
+/-- **`z2inv` does not raise on the flat matrix of a valid map** -/
+theorem z2inv_smat_some (A : List Pauli) (n : Nat) (hA : ValidMap A n) : ∃ G, z2inv (smat A) = some G :=
+  z2inv_some_of_rinv (smat A) (2 * n) (isSquare_smat A n hA.1 fun R hR => (hA.2.1 R hR).1) _ (smat_rinv A n hA)
+
+/-! ## the rows built by `CliffordMap.inverse` -/
+
+/-- one row of `CliffordMap.inverse()` built from the row `c` of the inverse bit matrix -/
+def invRow (A : List Pauli) (c : List Bool) : Pauli :=
+  ⟨unflat c, (- (combine (mapN A) c A).p - p0 (unflat c)) % 4⟩
+
+theorem inverse_eq (A : List Pauli) (G : BMat) (hz : z2inv (smat A) = some G) :
+    inverse A = some (G.map (invRow A)) := by
+  unfold inverse
+  rw [show (A.map fun R => flat R.g) = smat A from rfl, hz]
+  rfl
+
+theorem inverse_none (A : List Pauli) (hz : z2inv (smat A) = none) : inverse A = none := by
+  unfold inverse
+  rw [show (A.map fun R => flat R.g) = smat A from rfl, hz]
+
+/-- the phase chosen by `inverse` makes the image of the row phase-free -/
+theorem transform_invRow (A : List Pauli) (n : Nat) (hA : A.length = 2 * n) (c : List Bool)
+    (hc : c.length = 2 * n) :
+    (transform A (invRow A c)).g = (combine n c A).g ∧ (transform A (invRow A c)).p = 0 := by
+  unfold transform invRow
+  simp only
+  rw [flat_unflat c n hc, mapN_of_length A n hA]
+  exact ⟨rfl, by omega⟩
+
+/-- the strings of the identity map are the unit vectors -/
+theorem flat_idMap (n : Nat) : ∀ (r j : Nat), r < 2 * n →
+    (flat (rowAt (idMap n) r).g).getD j false = (r == j) := by
+  induction n with
+  | zero => intro r j h; omega
+  | succ n ih =>
+    intro r j hr
+    rw [idMap_succ]
+    match r with
+    | 0 =>
+      rw [rowAt_cons_zero]
+      match j with
+      | 0 => rfl
+      | 1 => rfl
+      | j + 2 => rw [getD_flat_add_two, getD_flat_idStr]; simp
+    | 1 =>
+      rw [rowAt_cons_succ, rowAt_cons_zero]
+      match j with
+      | 0 => rfl
+      | 1 => rfl
+      | j + 2 => rw [getD_flat_add_two, getD_flat_idStr]; simp
+    | r + 2 =>
+      have hr' : r < (idMap n).length := by rw [length_idMap]; omega
+      rw [rowAt_cons_succ, rowAt_cons_succ, rowAt_map lift _ r hr']
+      show (flat ((false, false) :: (rowAt (idMap n) r).g)).getD j false = _
+      match j with
+      | 0 => rw [getD_flat_zero]; simp
+      | 1 => rw [getD_flat_one]; simp
+      | j + 2 => rw [getD_flat_add_two, ih r j (by omega)]; simp
+
+theorem rowAt_idMap (n r : Nat) (hr : r < 2 * n) :
+    (rowAt (idMap n) r).g.length = n ∧ (rowAt (idMap n) r).p = 0 :=
+  idMap_rows n _ (rowAt_mem _ r (by rw [length_idMap]; exact hr))
+
+/-- a string whose flat view is the unit vector `r` is the string of row `r` of the identity map -/
+theorem eq_idMap_row (n r : Nat) (hr : r < 2 * n) (g : PStr) (hg : g.length = n)
+    (h : ∀ j, j < 2 * n → (flat g).getD j false = ident r j) : g = (rowAt (idMap n) r).g := by
+  apply eq_of_flat_getD g _ (hg.trans (rowAt_idMap n r hr).1.symm)
+  intro j hj
+  rw [hg] at hj
+  rw [h j hj, flat_idMap n r j hr]; rfl
+
+/-- (ii) the image under `A` of row `r` of the candidate inverse is generator `r` -/
+theorem transform_invRow_eq (A : List Pauli) (n : Nat) (hA : ValidMap A n) (G : BMat)
+    (shG : Shape G (2 * n) (2 * n))
+    (hGS : ∀ r, r < 2 * n → ∀ c, c < 2 * n → mmul (2 * n) G.get (smat A).get r c = ident r c)
+    (r : Nat) (hr : r < 2 * n) :
+    PEq (transform A (invRow A (G.getD r []))) (rowAt (idMap n) r) := by
+  have hlA : ∀ R ∈ A, R.g.length = n := fun R hR => (hA.2.1 R hR).1
+  have hc := shG.2 r hr
+  obtain ⟨h1, h2⟩ := transform_invRow A n hA.1 _ hc
+  refine ⟨?_, by rw [h2, (rowAt_idMap n r hr).2]⟩
+  apply eq_idMap_row n r hr _ (length_transform A n hA.1 hlA _)
+  intro j hj
+  rw [h1, flat_combine n A _ j hA.1 hlA hc]
+  exact hGS r hr j hj
+
+/-- (iii) a list of rows that `A` sends to the generators is a valid map -/
+theorem valid_of_transform_eq_id (A B : List Pauli) (n : Nat) (hA : ValidMap A n) (hlen : B.length = 2 * n)
+    (hl : ∀ R ∈ B, R.g.length = n)
+    (h : ∀ r, r < 2 * n → PEq (transform A (rowAt B r)) (rowAt (idMap n) r)) : ValidMap B n := by
+  refine ⟨hlen, fun R hR => ⟨hl R hR, ?_⟩, fun i j hi hj => ?_⟩
+  · obtain ⟨r, hr, rfl⟩ := List.getElem_of_mem hR
+    have hr2 : r < 2 * n := by rw [← hlen]; exact hr
+    have e := h r hr2
+    rw [rowAt_of_lt B r hr] at e
+    have t := transform_of_g_eq A B[r] ⟨B[r].g, 0⟩ rfl
+    have hh := transform_hermitian A n hA ⟨B[r].g, 0⟩ (hl B[r] hR) rfl
+    have e2 := e.2
+    rw [(rowAt_idMap n r hr2).2] at e2
+    have t2 := t.2
+    simp only at t2
+    omega
+  · have hi' : i < B.length := by rw [hlen]; exact hi
+    have hj' : j < B.length := by rw [hlen]; exact hj
+    rw [← transform_acq A n hA _ _ (hl _ (rowAt_mem B i hi')) (hl _ (rowAt_mem B j hj')),
+      (h i hi).1, (h j hj).1]
+    exact Sympl_idMap n i j (by rw [length_idMap]; exact hi) (by rw [length_idMap]; exact hj)
+
+/-- (iv) the other order: if `transform A ∘ transform B = id` and `S_A · S_B = 1` then `B` sends the rows of `A`
+    to the generators -/
+theorem transform_row_eq_id (A B : List Pauli) (n : Nat) (hA : ValidMap A n) (hB : ValidMap B n)
+    (hact : ∀ P : Pauli, P.g.length = n → PEq (transform A (transform B P)) P)
+    (hSB : ∀ r, r < 2 * n → ∀ c, c < 2 * n → mmul (2 * n) (smat A).get (smat B).get r c = ident r c)
+    (r : Nat) (hr : r < 2 * n) : PEq (transform B (rowAt A r)) (rowAt (idMap n) r) := by
+  have hlB : ∀ R ∈ B, R.g.length = n := fun R hR => (hB.2.1 R hR).1
+  have hrA : r < A.length := by rw [hA.1]; exact hr
+  have lr : (rowAt A r).g.length = n := (hA.2.1 _ (rowAt_mem A r hrA)).1
+  have hTg : (transform B (rowAt A r)).g = (rowAt (idMap n) r).g := by
+    apply eq_idMap_row n r hr _ (length_transform B n hB.1 hlB _)
+    intro j hj
+    rw [flat_transform n B _ j hB.1 hlB lr, ← hSB r hr j hj]
+    simp only [mmul, get_smat]
+  -- the image of generator `r` under `A` is row `r` of `A`
+  have hE : PEq (transform A (rowAt (idMap n) r)) (rowAt A r) := by
+    have := rowAt_of_forall₂ (id_compose A n hA) r
+    rwa [rowAt_compose _ _ r (by rw [length_idMap]; exact hr)] at this
+  have h1 := hact (rowAt A r) lr
+  have h2 := transform_of_g_eq A (transform B (rowAt A r)) (rowAt (idMap n) r) hTg
+  refine ⟨hTg, ?_⟩
+  have a := hE.2; have b := h1.2; have c := h2.2
+  rw [(rowAt_idMap n r hr).2] at c ⊢
+  omega
+
+theorem smat_map_invRow (A : List Pauli) (G : BMat) (n : Nat) (hG : IsSquare G (2 * n)) :
+    smat (G.map (invRow A)) = G := by
+  unfold smat
+  rw [List.map_map]
+  conv => rhs; rw [← List.map_id G]
+  apply List.map_congr_left
+  intro c hc
+  exact flat_unflat c n (hG.2 c hc)
+
+/-- **`CliffordMap.inverse` of a valid map: exists, is valid, inverts on both sides** -/
+theorem inverse_spec (A : List Pauli) (n : Nat) (hA : ValidMap A n) :
+    ∃ B, inverse A = some B ∧ ValidMap B n ∧ List.Forall₂ PEq (compose A B) (idMap n) ∧
+      List.Forall₂ PEq (compose B A) (idMap n) := by
+  have hlA : ∀ R ∈ A, R.g.length = n := fun R hR => (hA.2.1 R hR).1
+  have sqS := isSquare_smat A n hA.1 hlA
+  obtain ⟨G, hz⟩ := z2inv_smat_some A n hA
+  obtain ⟨sqG, hGS⟩ := z2inv_left (smat A) G (2 * n) sqS hz
+  have hSG := z2inv_right (smat A) G (2 * n) sqS hz
+  have shG := shape_of_isSquare G _ sqG
+  have hGS' := (bmul_eq_bident_iff G (smat A) (2 * n) shG).mp hGS
+  have hSG' := (bmul_eq_bident_iff (smat A) G (2 * n) (shape_of_isSquare _ _ sqS)).mp hSG
+  have hBlen : (G.map (invRow A)).length = 2 * n := by rw [List.length_map]; exact sqG.1
+  have hBl : ∀ R ∈ G.map (invRow A), R.g.length = n := by
+    intro R hR
+    obtain ⟨c, hc, rfl⟩ := List.mem_map.1 hR
+    exact length_unflat c n (sqG.2 c hc)
+  have hBrow : ∀ r, r < 2 * n → rowAt (G.map (invRow A)) r = invRow A (G.getD r []) :=
+    fun r hr => rowAt_map' _ G [] r (by rw [sqG.1]; exact hr)
+  have hrow : ∀ r, r < 2 * n → PEq (transform A (rowAt (G.map (invRow A)) r)) (rowAt (idMap n) r) := by
+    intro r hr
+    rw [hBrow r hr]
+    exact transform_invRow_eq A n hA G shG hGS' r hr
+  have hB : ValidMap (G.map (invRow A)) n := valid_of_transform_eq_id A _ n hA hBlen hBl hrow
+  have hBA : List.Forall₂ PEq (compose (G.map (invRow A)) A) (idMap n) := by
+    apply forall₂_of_rowAt _ _ (by rw [length_compose, hBlen, length_idMap])
+    intro i hi
+    rw [length_compose] at hi
+    rw [rowAt_compose _ _ i hi]
+    exact hrow i (by rw [← hBlen]; exact hi)
+  have hact := acts_id_of_rows _ A n hB hA hBA
+  have hAB : List.Forall₂ PEq (compose A (G.map (invRow A))) (idMap n) := by
+    apply forall₂_of_rowAt _ _ (by rw [length_compose, hA.1, length_idMap])
+    intro i hi
+    rw [length_compose] at hi
+    rw [rowAt_compose _ _ i hi]
+    refine transform_row_eq_id A _ n hA hB hact ?_ i (by rw [← hA.1]; exact hi)
+    rw [smat_map_invRow A G n sqG]
+    exact hSG'
+  exact ⟨_, inverse_eq A G hz, hB, hAB, hBA⟩
+
+/-- inverses are unique, hence the inverse of a composition is the reversed composition of the inverses -/
+theorem inverse_compose (A B A' B' X : List Pauli) (n : Nat) (hA : ValidMap A n) (hB : ValidMap B n)
+    (h1 : inverse A = some A') (h2 : inverse B = some B') (h3 : inverse (compose A B) = some X) :
+    List.Forall₂ PEq X (compose B' A') := by
+  have hC := compose_valid A B n hA hB
+  obtain ⟨A0, e1, vA', hAA', _⟩ := inverse_spec A n hA
+  obtain ⟨B0, e2, vB', hBB', _⟩ := inverse_spec B n hB
+  obtain ⟨X0, e3, vX, _, hXC⟩ := inverse_spec (compose A B) n hC
+  rw [h1] at e1; rw [h2] at e2; rw [h3] at e3
+  cases e1; cases e2; cases e3
+  have lA : ∀ R ∈ A, R.g.length = n := fun R hR => (hA.2.1 R hR).1
+  have lB : ∀ R ∈ B, R.g.length = n := fun R hR => (hB.2.1 R hR).1
+  have lX : ∀ R ∈ X, R.g.length = n := fun R hR => (vX.2.1 R hR).1
+  apply faithful X (compose B' A') n vX (compose_valid B' A' n vB' vA')
+  intro P hP
+  have lQ : (transform X P).g.length = n := length_transform X n vX.1 lX P
+  have lAQ : (transform A (transform X P)).g.length = n := length_transform A n hA.1 lA _
+  have lBAQ : (transform B (transform A (transform X P))).g.length = n := length_transform B n hB.1 lB _
+  have hCX : PEq (transform (compose A B) (transform X P)) P := acts_id_of_rows X _ n vX hC hXC P hP
+  have c1 := compose_acts A B n hA hB (transform X P) lQ
+  have s1 : PEq (transform (compose B' A') (transform (compose A B) (transform X P))) (transform X P) :=
+    (transform_congr _ c1).trans
+      ((compose_acts B' A' n vB' vA' _ lBAQ).trans
+        ((transform_congr A' (acts_id_of_rows B B' n hB vB' hBB' _ lAQ)).trans
+          (acts_id_of_rows A A' n hA vA' hAA' _ lQ)))
+  exact s1.symm.trans (transform_congr _ hCX)
+
+end Cp
 end PC
